@@ -301,8 +301,9 @@ func (vc *VC) selfEnv(st *State, results []Term) *Env {
 		}
 		e.vars[name] = vc.vals[p]
 	}
-	for _, fv := range vc.fn.FreeVars {
+	for i, fv := range vc.fn.FreeVars {
 		e.vars["&"+fv.Name()] = vc.vals[fv]
+		e.vars[fmt.Sprintf("&#%d", i)] = vc.vals[fv]
 	}
 	vc.bindResults(e, vc.fn.Signature, vc.spec, results)
 	return e
@@ -716,13 +717,36 @@ func (vc *VC) loopEnv(li *loopInfo, st *State, phiVal func(*ssa.Phi) Term) *Env 
 			}
 		}
 	}
-	// $visited: the keys already produced by the map iteration this loop drives
-	for _, in := range li.header.Instrs {
-		if nx, ok := in.(*ssa.Next); ok {
-			if rg, ok := nx.Iter.(*ssa.Range); ok {
-				if name, sortName, mt := vc.rangeVar(rg); mt != nil {
-					e.vars["$visited"] = Term{S: vc.get(st, name, sortName), Sort: sortName}
-					e.vars["$map"] = vc.vals[rg]
+	// $visited: the keys already produced by the map iteration this loop drives; $key, $val: the entry
+	// the current iteration works on (available once the loop's Next has run: iteration clauses, and
+	// the clauses of loops nested inside).  $visitedK, $keyK, $valK: the same for loop K.
+	for _, lj := range vc.loops {
+		for _, in := range lj.header.Instrs {
+			nx, ok := in.(*ssa.Next)
+			if !ok {
+				continue
+			}
+			rg, ok := nx.Iter.(*ssa.Range)
+			if !ok {
+				continue
+			}
+			name, sortName, mt := vc.rangeVar(rg)
+			if mt == nil {
+				continue
+			}
+			if _, started := vc.vals[rg]; !started {
+				continue
+			}
+			sfx := []string{fmt.Sprint(lj.ordinal)}
+			if lj == li {
+				sfx = append(sfx, "")
+			}
+			for _, sf := range sfx {
+				e.vars["$visited"+sf] = Term{S: vc.get(st, name, sortName), Sort: sortName}
+				e.vars["$map"+sf] = vc.vals[rg]
+				if tup, ok := vc.tuples[nx]; ok && len(tup) == 3 {
+					e.vars["$key"+sf] = tup[1]
+					e.vars["$val"+sf] = tup[2]
 				}
 			}
 		}
